@@ -107,6 +107,7 @@ pub proof fn lemma_cs_676_compose<'a>(subs: Map<Tid, Term<Sub>>, ext: Map<Tid, E
             ==> cs_warns_per_call(ws, subs, cs_dangerous(ext, l))
 {
     assert forall |m: Map<&'a Tid, &'a str>, v: Seq<(&'a str, &'a Tid, &'a str)>, ws: Seq<CweWarning>|
+        #![trigger cs_resolved(m, ext, l), cs_prog_calls_post(v, subs, m), cs_warns_for_calls(ws, v)]
         cs_resolved(m, ext, l) && cs_prog_calls_post(v, subs, m) && cs_warns_for_calls(ws, v)
         implies cs_warns_per_call(ws, subs, cs_dangerous(ext, l)) by {
         let s = choose |s: Seq<(&Tid, &Term<Sub>)>| #[trigger] cs_prog_calls_wit(s, v, subs, m);
@@ -244,16 +245,73 @@ pub proof fn lemma_cs_per_sub_exit(subs: Map<Tid, Term<Sub>>, p1: spec_fn(Tid) -
 {
 }
 
-/// a map has no key  <==>  `is_empty()` (its length is 0)
-pub proof fn lemma_cs_map_empty<'a>(m: Map<&'a Tid, &'a str>)
-    requires m.dom().finite()
-    ensures m.len() == 0 <==> (forall |t: Tid| !#[trigger] m.contains_key(&t))
+// ---- nothing is found => nothing is hit => nobody is flagged ------------------------------------------------------------------
+
+pub proof fn lemma_cs_jmps_no_hits(sub_name: Seq<char>, jmps: Seq<Term<Jmp>>, p: spec_fn(Tid) -> bool, n: int)
+    requires forall |t: Tid| !#[trigger] p(t)
+    ensures cs_jmps_hits(sub_name, jmps, p, n).len() == 0
+    decreases n
 {
-    vstd::set_lib::lemma_set_empty_equivalency_len(m.dom());
-    assert(m.len() == m.dom().len());
-    if m.len() == 0 { assert(m.dom() =~= Set::empty()); }
-    if forall |t: Tid| !#[trigger] m.contains_key(&t) {
-        assert forall |k: &'a Tid| !m.dom().contains(k) by { assert(!m.contains_key(&*k)); }
-        assert(m.dom() =~= Set::empty());
+    if n > 0 { lemma_cs_jmps_no_hits(sub_name, jmps, p, n - 1); }
+}
+
+pub proof fn lemma_cs_blks_no_hits(sub_name: Seq<char>, blks: Seq<Term<Blk>>, p: spec_fn(Tid) -> bool, n: int)
+    requires forall |t: Tid| !#[trigger] p(t)
+    ensures cs_blks_hits(sub_name, blks, p, n).len() == 0
+    decreases n
+{
+    if n > 0 {
+        lemma_cs_blks_no_hits(sub_name, blks, p, n - 1);
+        lemma_cs_jmps_no_hits(sub_name, blks[n - 1].term.jmps@, p, blks[n - 1].term.jmps@.len() as int);
+    }
+}
+
+pub proof fn lemma_cs_none_flagged(s: Seq<(&Tid, &Term<Sub>)>, p1: spec_fn(Tid) -> bool, p2: spec_fn(Tid) -> bool, n: int)
+    requires (forall |t: Tid| !#[trigger] p1(t)) || (forall |t: Tid| !#[trigger] p2(t))
+    ensures cs_flagged(s, p1, p2, n).len() == 0
+    decreases n
+{
+    if n > 0 {
+        lemma_cs_none_flagged(s, p1, p2, n - 1);
+        let sub = *s[n - 1].1;
+        if forall |t: Tid| !#[trigger] p1(t) {
+            lemma_cs_blks_no_hits(sub.term.name@, sub.term.blocks@, p1, sub.term.blocks@.len() as int);
+        } else {
+            lemma_cs_blks_no_hits(sub.term.name@, sub.term.blocks@, p2, sub.term.blocks@.len() as int);
+        }
+    }
+}
+
+/// cwe_426: when "system" or every configured name is absent, a warning list that is "one per flagged function" is empty
+/// (so the early exit `if !system_symbol.is_empty() && !privilege_changing_symbols.is_empty()` is only an optimisation)
+pub proof fn lemma_cs_426_absent(subs: Map<Tid, Term<Sub>>, ext: Map<Tid, ExternSymbol>, l: Seq<String>)
+    ensures
+        !(cs_named(ext, "system"@) && cs_any_named(ext, l, l.len() as int)) ==>
+            forall |ws: Seq<CweWarning>| #[trigger] cs_warns_per_sub(ws, subs, cs_found(ext, "system"@), cs_found_any(ext, l)) ==> ws.len() == 0,
+{
+    if !(cs_named(ext, "system"@) && cs_any_named(ext, l, l.len() as int)) {
+        let p1 = cs_found(ext, "system"@);
+        let p2 = cs_found_any(ext, l);
+        if !cs_named(ext, "system"@) {
+            assert forall |t: Tid| !#[trigger] p1(t) by {
+                if cs_found_tid(ext, "system"@, t) {
+                    let k = choose |k: Tid| #[trigger] cs_first_named(ext, "system"@, k) && t == ext[k].tid;
+                    assert(cs_named(ext, "system"@));
+                }
+            }
+        } else {
+            assert forall |t: Tid| !#[trigger] p2(t) by {
+                if cs_found_any_tid(ext, l, l.len() as int, t) {
+                    let j = choose |j: int| 0 <= j < l.len() && cs_found_tid(ext, (#[trigger] l[j])@, t);
+                    let k = choose |k: Tid| #[trigger] cs_first_named(ext, l[j]@, k) && t == ext[k].tid;
+                    assert(cs_named(ext, l[j]@));
+                    assert(cs_any_named(ext, l, l.len() as int));
+                }
+            }
+        }
+        assert forall |ws: Seq<CweWarning>| #[trigger] cs_warns_per_sub(ws, subs, p1, p2) implies ws.len() == 0 by {
+            let s = choose |s: Seq<(&Tid, &Term<Sub>)>| #[trigger] cs_warns_per_sub_wit(s, ws, subs, p1, p2);
+            lemma_cs_none_flagged(s, p1, p2, s.len() as int);
+        }
     }
 }
